@@ -142,6 +142,9 @@ class Ctx:
         def handler(signum, frame):
             raise CaseTimeout(reason)
 
+        if self.tier == "quick":
+            # a pathological sympy simplify must not dominate the quick tier: cap pure generation, keep the others
+            seconds = min(seconds, 12.0) if reason == "generation-timeout" else (min(seconds, 30.0) if reason.startswith("cpp") else seconds)
         old = signal.signal(signal.SIGALRM, handler)
         # re-fires every 0.5 s: a first exception swallowed in a destructor/callback must not disarm the watchdog
         signal.setitimer(signal.ITIMER_REAL, seconds, 0.5)
